@@ -96,6 +96,13 @@ Theorem C30_timeout : forall st x t tr,
   (exists t' ok, In (t', ORet (wid x) ok) log) \/ (In x (woken st2) /\ ~ In x (waiting st2)).
 Proof. exact sem_timeout. Qed.
 
+(* The fair scheduler that replays harness scripts (model/Semaphore.v: simulate) is not a second
+   model: the state it ends in is the state [run] reaches on the event trace it reports. *)
+Theorem C30_scheduler_is_run : forall fx c prefer sc,
+  let '(st, tr, ob) := sim_script fx prefer (init c, [], []) sc in
+  st = fst (run fx (init c) (rev tr)).
+Proof. exact simulate_is_run. Qed.
+
 (* non-vacuity: a reachable state with held > 0 and two runnable waiters, one that fits and one
    that does not *)
 Example C30_nonvacuous : reachable (mkM 2 20) ex_state /\
@@ -114,3 +121,4 @@ Print Assumptions C30_terminate_blocked.
 Print Assumptions C30_runnable_stays.
 Print Assumptions C30_deadline_returns.
 Print Assumptions C30_timeout.
+Print Assumptions C30_scheduler_is_run.
